@@ -260,6 +260,9 @@ fn for_items(seed: u64, reps: u32, quick: bool) -> (Vec<Case>, Vec<Case>) {
             push(&mut heavy, cv, ForKind::MsmRep(vec![7, 7, 7]), &[0], &[7, 7, 7], 2);
             push(&mut heavy, cv, ForKind::MsmRep(vec![8, 4]), &[0], &[7, 7], 2);
             push(&mut heavy, cv, ForKind::MsmRep(vec![[4usize, 12, 63, 64][(rep % 4) as usize], 8, 8, 3]), &[0], &[7, [7u8, 0, 2, 7][(rep % 4) as usize], 7, 7], 2);
+            // a base and its in-circuit negation (shared cells): a*P + b*(-P)
+            push(&mut heavy, cv, ForKind::MsmPN(Some(64)), &[0], &[[0u8, 7][(rep % 2) as usize], 0], 2);
+            push(&mut heavy, cv, ForKind::MsmPN(None), &[0], &[0, [0u8, 4][(rep % 2) as usize]], 2);
             push(&mut heavy, cv, ForKind::MsmRep(vec![64, 64]), &[[0u8, 1][(rep % 2) as usize]], &[7, [7u8, 0][(rep % 2) as usize]], 2);
             // (identity base with a constant above 128 bits: defect D4 below)
             push(&mut heavy, cv, ForKind::MulConst(hexs(&(&w.n - 1u32))), &[if rep % 2 == 0 { 0 } else { 2 }], &[], 2);
